@@ -109,7 +109,7 @@ func (s *Signature) parse(data string) error {
 // KeyID extracts the ID used to generate the signature from the
 // headers.
 func (s *Signature) KeyID() string {
-	if s.jws == nil || len(s.jws.Signatures) == 0 {
+	if s == nil || s.jws == nil || len(s.jws.Signatures) == 0 {
 		return ""
 	}
 	return s.jws.Signatures[0].Header.KeyID
@@ -117,7 +117,7 @@ func (s *Signature) KeyID() string {
 
 // JKU returns the signatures JKU header property value.
 func (s *Signature) JKU() string {
-	if s.jws == nil || len(s.jws.Signatures) == 0 {
+	if s == nil || s.jws == nil || len(s.jws.Signatures) == 0 {
 		return ""
 	}
 	jku, ok := s.jws.Signatures[0].Header.ExtraHeaders[headerJKU].(string)
@@ -129,7 +129,7 @@ func (s *Signature) JKU() string {
 
 // String provides the compact form signature.
 func (s *Signature) String() string {
-	if s.jws == nil {
+	if s == nil || s.jws == nil {
 		return ""
 	}
 	d, err := s.jws.CompactSerialize()
@@ -142,6 +142,9 @@ func (s *Signature) String() string {
 // Verify will ensure that the provided key was used to sign the
 // signature and will provide the raw data that was signed.
 func (s *Signature) Verify(key *PublicKey) ([]byte, error) {
+	if s == nil || s.jws == nil || key == nil {
+		return nil, ErrKeyMismatch
+	}
 	data, err := s.jws.Verify(key.jwk)
 	if err != nil {
 		// at the risk of hiding useful errors, provide our own
@@ -166,6 +169,9 @@ func (s *Signature) VerifyPayload(key *PublicKey, payload any) error {
 // Unsafe provides the raw data that was signed, but will not check
 // any of the signatures.
 func (s *Signature) Unsafe() []byte {
+	if s == nil || s.jws == nil {
+		return nil
+	}
 	return s.jws.UnsafePayloadWithoutVerification()
 }
 
@@ -183,6 +189,9 @@ func (s *Signature) UnsafePayload(payload any) error {
 
 // JSONWebSignature provides underlying JOSE object.
 func (s *Signature) JSONWebSignature() *jose.JSONWebSignature {
+	if s == nil {
+		return nil
+	}
 	return s.jws
 }
 
